@@ -594,8 +594,9 @@ class KeychainSqlite3(Keychain):
         """
         name = Name.to_bytes(id_name)
         if name not in self:
+            # One transaction with the key: new_key() commits both, and a failure on the way rolls both back.
+            # (Committed on its own, a failure in new_key() left an identity without the promised key for good.)
             self.conn.execute('INSERT INTO identities (identity) VALUES (?)', (name,))
-            self.conn.commit()
             self.new_key(name)
         if not self.has_default_identity():
             self.set_default_identity(name)
